@@ -100,14 +100,15 @@ def standsFor (path : List Str) (L : Layout K) (dir : Dir K) (stepName : Str) (e
 def stepLinks (env : Env K) (path : List Str) (L : Layout K) (dir : Dir K) (st : Step) :
     Option (Step × List (Str × Link)) :=
   let ev := (evidence dir st.name).filter (counts env L st)
-  if ev.length < st.threshold || ev.isEmpty then none
+  if ev.length < st.threshold then none
   else (allSome (standsFor sub path L dir st.name) ev).map fun ls => (st, ls)
 
 /-- clause 6 -/
 def agreeing (v : Step × List (Str × Link)) : Bool :=
   decide (v.1.threshold ≤ 1) || v.2.all fun e => v.2.all fun e' => agree e.2 e'.2
 
-/-- clause 7: the representative of a step -/
+/-- clause 7: the representative of a step - the link of the smallest key id; a step without any
+    counted evidence (possible with threshold 0 only) has none, which is clause 4's "at least one" -/
 def representative (v : Step × List (Str × Link)) : Option (Str × Link) :=
   (minEntry v.2).map fun m => (v.1.name, m.2)
 
